@@ -7,6 +7,7 @@ import (
 	"fmt"
 	"net/http"
 	"net/http/httptest"
+	neturl "net/url"
 	"regexp"
 	"strconv"
 	"strings"
@@ -37,7 +38,10 @@ import (
 //           anything else answers 404.
 //   val     nil: no validator; allow: accepts all; https: HTTPSOnlyValidator; deny: rejects URLs whose
 //           path contains "deny".
-//   user/query  the pointer URL carries user info / a query string with secret markers.
+//   user/query  the pointer URL carries user info / a query string with secret markers: user=1..9 are
+//           spellings of the user info (lower-case hex escapes, needless escapes, escaped '@'/':', '+',
+//           empty user or password, ...), query=1..4 spellings of query/fragment; v6=1 uses an IPv6
+//           literal host (every attempt fails at the transport level).
 //
 // Observation compared with the model: the request log (per attempt, as URL numbers) and the outcome
 // (rejected-first | fetched:<len> | failed:<n>:<error text>).
@@ -276,11 +280,54 @@ func c31Exec(c *Case) {
 		start := kv["start"]
 		base := c31Org.base[start[:1]]
 		ptrURL := base + start[1:]
-		if kv["user"] == "1" {
-			ptrURL = strings.Replace(ptrURL, "://", "://alice:"+usec+"@", 1)
+		// secrets: every spelling that must never show up in an error (raw as written in the URL,
+		// and percent-decoded)
+		secrets := []string{qsec, usec}
+		idx3 := fmt.Sprintf("%dx", c.Index)
+		userinfo := ""
+		switch kv["user"] {
+		case "1":
+			userinfo = "alice:" + usec
+		case "2": // lower-case hex escape (url.User.String() re-escapes it in upper case)
+			userinfo = "alice:hun%2f" + usec
+			secrets = append(secrets, "hun%2f", "hun/")
+		case "3": // needless escape in the user name
+			userinfo = "al%69ce" + idx3 + ":" + usec
+			secrets = append(secrets, "al%69ce"+idx3, "alice"+idx3)
+		case "4": // the secret itself spelled with a needless escape
+			userinfo = "alice:US%45C" + idx3
+			secrets = append(secrets, "US%45C"+idx3, "USEC"+idx3)
+		case "5": // escaped '@' and ':' inside the password
+			userinfo = "alice:p%40" + usec + "%3atail"
+			secrets = append(secrets, "p%40", "p@"+usec)
+		case "6": // '+' and sub-delims, empty user name
+			userinfo = ":" + usec + "+a!b$c"
+		case "7": // user name only (no password), and it is the secret
+			userinfo = usec
+		case "8": // empty password
+			userinfo = usec + "user:"
+		case "9": // lower-case hex of a byte that needs escaping, mixed case
+			userinfo = "%c3%a9l%C3%A9ve:" + usec + "%2F%2f"
+			secrets = append(secrets, "%c3%a9l", "\u00e9l\u00e9ve")
 		}
-		if kv["query"] == "1" {
+		if userinfo != "" {
+			ptrURL = strings.Replace(ptrURL, "://", "://"+userinfo+"@", 1)
+		}
+		if kv["v6"] == "1" { // IPv6 literal host (nothing listens there: every attempt is a transport failure)
+			if u0, err := neturl.Parse(ptrURL); err == nil {
+				ptrURL = strings.Replace(ptrURL, u0.Host, "[::1]:"+u0.Port(), 1)
+			}
+		}
+		switch kv["query"] {
+		case "1":
 			ptrURL += "?X-Amz-Signature=" + qsec + "&x=1#frag" + qsec
+		case "2": // escapes in both hex cases, '+', no fragment
+			ptrURL += "?sig=Q%53EC" + idx3 + "+a%2fb%2Fc&" + qsec
+			secrets = append(secrets, "Q%53EC"+idx3, "QSEC"+idx3)
+		case "3": // fragment only
+			ptrURL += "#" + qsec
+		case "4": // empty query marker then fragment
+			ptrURL += "?#" + qsec
 		}
 
 		var validator func(string) error
@@ -303,13 +350,20 @@ func c31Exec(c *Case) {
 		}
 
 		// URL numbering: 0 = pointer URL, then every redirect target in route order
+		// (the client re-serialises URLs: requests are matched on the canonical spelling)
+		canon := func(u string) string {
+			if pu, err := neturl.Parse(u); err == nil {
+				return pu.String()
+			}
+			return u
+		}
 		urls := []string{ptrURL}
-		idx := map[string]int{ptrURL: 0}
+		idx := map[string]int{canon(ptrURL): 0}
 		num := func(u string) int {
-			if i, ok := idx[u]; ok {
+			if i, ok := idx[canon(u)]; ok {
 				return i
 			}
-			idx[u] = len(urls)
+			idx[canon(u)] = len(urls)
 			urls = append(urls, u)
 			return len(urls) - 1
 		}
@@ -321,20 +375,15 @@ func c31Exec(c *Case) {
 		}
 		// the origin routes by scheme and path only
 		keyOf := func(u string) string {
+			pu, err := neturl.Parse(u)
+			if err != nil {
+				return "?"
+			}
 			sch := "h"
-			rest := strings.TrimPrefix(u, c31Org.base["h"])
-			if strings.HasPrefix(u, "http://") {
+			if pu.Scheme == "http" {
 				sch = "p"
-				rest = strings.TrimPrefix(u, c31Org.base["p"])
 			}
-			if i := strings.Index(u, "@"); i >= 0 && strings.Contains(u, "alice:") {
-				rest = u[i+1:]
-				rest = rest[strings.Index(rest, "/"):]
-			}
-			if i := strings.IndexAny(rest, "?#"); i >= 0 {
-				rest = rest[:i]
-			}
-			return sch + rest
+			return sch + pu.Path
 		}
 		type bodyInfo struct{ encLen, decLen int }
 		bodies := map[string]bodyInfo{}    // sha256 hex of fetched data -> lengths
@@ -401,10 +450,16 @@ func c31Exec(c *Case) {
 				mr = "s:404"
 			}
 			for ui := 0; ui < len(urls); ui++ {
+				if ui == 0 && kv["v6"] == "1" {
+					continue
+				}
 				if keyOf(urls[ui]) == rt.key {
 					mroutes = append(mroutes, fmt.Sprintf("%s|%d|%s", att, ui, mr))
 				}
 			}
+		}
+		if kv["v6"] == "1" {
+			mroutes = append([]string{"*|0|t"}, mroutes...)
 		}
 		var rej []string
 		if validator != nil {
@@ -445,7 +500,7 @@ func c31Exec(c *Case) {
 		for _, a := range tr.attempts {
 			var xs []string
 			for _, u := range a {
-				i, ok := idx[u]
+				i, ok := idx[canon(u)]
 				if !ok {
 					xs = append(xs, "?"+u)
 				} else {
@@ -526,9 +581,17 @@ func c31Exec(c *Case) {
 		if fetchedDec >= 0 && fetchedDec != fetchedEnc && int64(fetchedDec) > effDec {
 			c.Oracle("decoded-over-cap-accepted", fmt.Sprintf("a payload decoding to %d bytes was accepted with max_decompressed_bytes=%d", fetchedDec, effDec))
 		}
-		for _, sec := range []string{qsec, usec} {
+		redacted := vgirpc.VerifC31RedactURL(ptrURL)
+		for _, sec := range secrets {
 			if strings.Contains(errText, sec) && !strings.HasPrefix(errText, "SHA-256") {
-				c.Oracle("secret-in-error-text", fmt.Sprintf("error text contains a query/userinfo secret: %s", errText))
+				c.Oracle("secret-in-error-text", fmt.Sprintf("error text contains a query/userinfo secret (%q): %s", sec, errText))
+				break
+			}
+		}
+		for _, sec := range secrets {
+			if strings.Contains(redacted, sec) {
+				c.Oracle("secret-in-redacted-url", fmt.Sprintf("the redaction of the pointer URL still contains %q: %s", sec, redacted))
+				break
 			}
 		}
 	}
@@ -575,12 +638,23 @@ func c31Gen(g *Gen) {
 			}
 			return "0"
 		}
+		us, qs := b(user), b(query)
+		if user && r.Chance(60) { // the many spellings of user info
+			us = strconv.Itoa(r.Range(1, 9))
+		}
+		if query && r.Chance(40) {
+			qs = strconv.Itoa(r.Range(1, 4))
+		}
 		rs := "-"
 		if len(routes) > 0 {
 			rs = strings.Join(routes, ";")
 		}
-		return fmt.Sprintf("get retries=%d maxfetch=%d maxdec=%d maxredir=%d val=%s start=%s user=%s query=%s routes=%s",
-			c.retries, c.maxfetch, c.maxdec, c.maxredir, val, start, b(user), b(query), rs)
+		v6 := ""
+		if start[:1] == "h" && (val == "nil" || val == "allow") && r.Chance(4) {
+			v6 = " v6=1"
+		}
+		return fmt.Sprintf("get retries=%d maxfetch=%d maxdec=%d maxredir=%d val=%s start=%s user=%s query=%s%s routes=%s",
+			c.retries, c.maxfetch, c.maxdec, c.maxredir, val, start, us, qs, v6, rs)
 	}
 	// (a) redirect chains
 	for i := 0; i < g.N(170, 2000); i++ {
@@ -679,6 +753,19 @@ func c31Gen(g *Gen) {
 			g.Case(line(c, "nil", "h/s", r.Chance(30), r.Chance(50), []string{"*|h/s|" + b}))
 		}
 	}
+	// (c3) every spelling of user info / query against every failure that formats the pointer URL
+	for u := 1; u <= 9; u++ {
+		for q := 0; q <= 4; q++ {
+			if !g.Thorough() && (u*5+q)%2 == int(g.Seed%2) {
+				continue
+			}
+			c := pickCfg()
+			f := Pick(r, []string{"s:500", "s:404", "drop", "b:40:cut", "z:10:corrupt"})
+			g.Case(fmt.Sprintf("get retries=%d maxfetch=64 maxdec=2000 maxredir=%d val=%s start=h/s user=%d query=%d routes=*|h/s|%s",
+				c.retries, c.maxredir, Pick(r, []string{"nil", "allow", "https"}), u, q, f))
+		}
+	}
+	g.Case("get retries=1 maxfetch=64 maxdec=2000 maxredir=5 val=nil start=h/s user=2 query=2 v6=1 routes=*|h/s|b:5:plain")
 	// (d) the pointer URL itself refused / nothing routed
 	for i := 0; i < g.N(20, 200); i++ {
 		c := pickCfg()
